@@ -500,6 +500,13 @@ def check_c16(prop, tier):
         for s in range(1 if n > 1 else 0, n + 2):
             for st in ("RAM", "DISK"):
                 cfgs.append(D.Config("Mixed", (s, st), n))
+    # integers handed over as numpy.int64 scalars and as 0-d numpy arrays
+    # (mutable: an in-place `n += 1` inside a planner changes the caller's
+    # and the schedule's own max_n)
+    for n in range(1, min(B["NS"], 12) + 1):
+        for s in range(1 if n > 1 else 0, n + 2):
+            for fl in ("int64", "array0"):
+                cfgs.append(D.Config("Mixed", (s, "DISK"), n, 1, fl))
 
     def worker(idxs):
         out = []
@@ -650,6 +657,29 @@ def check_c19(prop, tier):
         for ram in range(1, B["RAM"] + 1):
             for cv in costs:
                 cfgs.append(D.Config("PeriodicDiskRevolve", (ram,) + cv, n))
+
+    # the same costs handed over in other numeric types: exact rationals
+    # (among them ratios (wd+rd)/uf that *are* a binomial coefficient, where
+    # the closed form sits on the boundary and float rounding of 0.3/0.1
+    # would move the period), numpy.float64 scalars, 0-d numpy arrays
+    # (mutable: an in-place update of a cost would show)
+    typed = [(("1/10", "1/10", "3/20", "3/20"), "cF"),
+             (("1/10", "1/10", "3/10", "3/10"), "cF"),
+             (("1/3", "1/7", "2/3", "5/3"), "cF"),
+             (("1/10", "3/10", "1/2", "1/2"), "cF"),
+             ((1, 1, 2, 2), "cF"), ((1, 1, 2, 2), "cN"), ((1, 1, 2, 2), "cA"),
+             ((2, 1, 1, 5), "cA"), ((1, 3, 20, 20), "cN")]
+    res.bounds["typed_cost_vectors"] = [[list(map(str, cv)), fl]
+                                        for cv, fl in typed]
+    for ram in range(1, B["RAM"] + 1):
+        for cv, fl in typed:
+            periods[(ram, cv)] = refs.periodic_period(
+                ram, tuple(D.exact_cost(x) for x in cv))
+    for n in range(1, min(B["N"], 40) + 1):
+        for ram in range(1, B["RAM"] + 1):
+            for cv, fl in typed:
+                cfgs.append(D.Config("PeriodicDiskRevolve", (ram,) + cv, n,
+                                     1, fl))
 
     # siblings (same n and ram, all cost vectors) are evaluated by the same
     # worker back to back, in both orders
